@@ -14,6 +14,9 @@ import ast
 import itertools
 
 
+from .symint import Poly, SymList, SymRange, is_num
+
+
 class Uninterpretable(Exception):
     pass
 
@@ -55,6 +58,17 @@ class _Break(Exception):
 
 class _Continue(Exception):
     pass
+
+
+_MISSING = object()
+POLY_OF_KEY: dict = {}  # fork key -> the polynomial compared with 0 (for witnesses)
+
+
+class GenResult:
+    """What a generator function yields (evaluated eagerly)."""
+
+    def __init__(self, items):
+        self.items = list(items)
 
 
 class Returned(Exception):
@@ -108,6 +122,8 @@ class Evaluator:
         self.fn = func_node
         self.assume = dict(assumptions)  # (repr lhs, repr rhs) -> bool (are they equal?)
         self.globals = dict(globals_ or {})
+        self.facts = []  # (fresh variable, lo, hi, what) for every abstract iteration of a symbolic range / list
+        self.nfresh = 0
 
     # ---- expressions -----------------------------------------------------------------------------
     def ev(self, e, env):
@@ -140,6 +156,10 @@ class Evaluator:
                 return ("dictmethod", v, e.attr)
             if isinstance(v, list) and e.attr == "append":
                 return ("listappend", v)
+            if isinstance(v, list) and e.attr == "extend":
+                return ("listextend", v)
+            if isinstance(v, (tuple, list)) and e.attr in ("index", "count"):
+                return getattr(v, e.attr)
             if isinstance(v, (set, frozenset)) and e.attr in ("update", "add", "intersection", "union", "difference", "pop", "issubset", "copy"):
                 return ("setmethod", v, e.attr)
             if isinstance(v, Obj) and v.tag == "Class" and v.attrs.get("name") == "object" and e.attr == "__setattr__":
@@ -151,13 +171,20 @@ class Evaluator:
                 lo = self.ev(e.slice.lower, env) if e.slice.lower is not None else None
                 hi = self.ev(e.slice.upper, env) if e.slice.upper is not None else None
                 st = self.ev(e.slice.step, env) if e.slice.step is not None else None
+                if isinstance(v, SymList) and st is None:
+                    return v.slice(lo, hi)
                 if isinstance(v, (tuple, list, str)):
                     return v[lo:hi:st]
                 raise Uninterpretable(f"slice {ast.unparse(e)}")
             i = self.ev(e.slice, env)
+            if isinstance(v, SymList) and is_num(i):
+                return v.elem(i)
+            if isinstance(v, (tuple, list)) and isinstance(i, Poly) and i.is_const():
+                i = i.value()
             if isinstance(v, dict):
-                if i in v:
-                    return v[i]
+                ek = self.dict_find(v, i)
+                if ek is not _MISSING:
+                    return v[ek]
                 raise Raised("KeyError")
             if isinstance(v, (tuple, list, str)) and isinstance(i, int):
                 try:
@@ -220,7 +247,55 @@ class Evaluator:
             return self.binop(e, self.ev(e.left, env), self.ev(e.right, env))
         return self.ev2(e, env)
 
+    def dict_find(self, d, k):
+        """The key of d that equals k (symbolic keys are compared through equal(), which may fork)."""
+        symbolic = isinstance(k, Poly) or any(isinstance(x, Poly) for x in d)
+        if not symbolic:
+            return k if k in d else _MISSING
+        for ek in list(d.keys()):
+            if self.truth(self.equal(ek, k)):
+                return ek
+        return _MISSING
+
+    def fresh(self, prefix):
+        self.nfresh += 1
+        return f"{prefix}{self.nfresh}"
+
+    def poly_compare(self, op, l, r):
+        if isinstance(op, (ast.Gt, ast.GtE)):
+            l, r = r, l
+            op = ast.Lt() if isinstance(op, ast.Gt) else ast.LtE()
+        d = l - r
+        if d.is_const():
+            v = d.value()
+            return {ast.Eq: v == 0, ast.NotEq: v != 0, ast.Lt: v < 0, ast.LtE: v <= 0}[type(op)]
+        if isinstance(op, (ast.Eq, ast.NotEq)):
+            # canonical sign: the representation whose text is smaller
+            dd = d if repr(d) <= repr(-d) else -d
+            key = ("poly", repr(dd), "==0")
+            POLY_OF_KEY[key] = dd
+            if key not in self.assume:
+                raise Fork(key)
+            return self.assume[key] if isinstance(op, ast.Eq) else not self.assume[key]
+        key = ("poly", repr(d), "<0" if isinstance(op, ast.Lt) else "<=0")
+        POLY_OF_KEY[key] = d
+        if key not in self.assume:
+            raise Fork(key)
+        return self.assume[key]
+
     def binop(self, e, l, r):
+        if isinstance(e.op, ast.Add) and isinstance(l, float) and l == 0.0 and isinstance(r, Poly):
+            return r
+        if isinstance(e.op, ast.Add) and isinstance(r, float) and r == 0.0 and isinstance(l, Poly):
+            return l
+        if (isinstance(l, Poly) or isinstance(r, Poly)) and is_num(l) and is_num(r):
+            if isinstance(e.op, ast.Add):
+                return Poly.of(l) + Poly.of(r)
+            if isinstance(e.op, ast.Sub):
+                return Poly.of(l) - Poly.of(r)
+            if isinstance(e.op, ast.Mult):
+                return Poly.of(l) * Poly.of(r)
+            raise Uninterpretable(f"operator on symbolic integers in {ast.unparse(e)}")
         if True:
             if isinstance(e.op, ast.Add) and isinstance(l, str) and isinstance(r, str):
                 return l + r
@@ -273,6 +348,8 @@ class Evaluator:
             return not self.truth(self.ev(e.operand, env))
         if isinstance(e, ast.UnaryOp) and isinstance(e.op, (ast.USub, ast.UAdd)):
             v = self.ev(e.operand, env)
+            if isinstance(v, Poly):
+                return -v if isinstance(e.op, ast.USub) else v
             if isinstance(v, (int, float)) and not isinstance(v, bool):
                 return -v if isinstance(e.op, ast.USub) else v
             raise Uninterpretable(f"unary minus of {ast.unparse(e.operand)}")
@@ -286,13 +363,17 @@ class Evaluator:
         if isinstance(e, ast.Compare) and len(e.ops) == 1:
             l, r = self.ev(e.left, env), self.ev(e.comparators[0], env)
             op = e.ops[0]
+            if (isinstance(l, Poly) or isinstance(r, Poly)) and is_num(l) and is_num(r) and isinstance(op, (ast.Eq, ast.NotEq, ast.Lt, ast.LtE, ast.Gt, ast.GtE)):
+                return self.poly_compare(op, Poly.of(l), Poly.of(r))
             if isinstance(op, (ast.Eq, ast.NotEq)):
                 eq = self.equal(l, r)
                 return eq if isinstance(op, ast.Eq) else not eq
-            if isinstance(op, ast.In):
-                return any(self.equal(l, x) for x in r)
-            if isinstance(op, ast.NotIn):
-                return not any(self.equal(l, x) for x in r)
+            if isinstance(op, (ast.In, ast.NotIn)):
+                if isinstance(r, dict):
+                    found = self.dict_find(r, l) is not _MISSING
+                else:
+                    found = any(self.truth(self.equal(l, x)) for x in self.iterate(r, e.comparators[0]))
+                return found if isinstance(op, ast.In) else not found
             if isinstance(op, (ast.Lt, ast.LtE, ast.Gt, ast.GtE)) and isinstance(l, (int, float)) and isinstance(r, (int, float)):
                 return {ast.Lt: l < r, ast.LtE: l <= r, ast.Gt: l > r, ast.GtE: l >= r}[type(op)]
             if isinstance(op, (ast.Is, ast.IsNot)):
@@ -305,6 +386,12 @@ class Evaluator:
             return self.comp(e, env)
         if isinstance(e, ast.Call):
             return self.call(e, env)
+        if isinstance(e, ast.Yield):
+            env.setdefault("__yields__", []).append(self.ev(e.value, env) if e.value is not None else None)
+            return None
+        if isinstance(e, ast.YieldFrom):
+            env.setdefault("__yields__", []).extend(self.iterate(self.ev(e.value, env), e.value))
+            return None
         raise Uninterpretable(f"expression {ast.unparse(e)}")
 
     def truth(self, v):
@@ -317,6 +404,10 @@ class Evaluator:
         raise Uninterpretable(f"truth of {v!r}")
 
     def equal(self, l, r):
+        if (isinstance(l, Poly) or isinstance(r, Poly)) and is_num(l) and is_num(r):
+            return self.poly_compare(ast.Eq(), Poly.of(l), Poly.of(r))
+        if isinstance(l, Poly) or isinstance(r, Poly):
+            return False
         if isinstance(l, Sym) or isinstance(r, Sym):
             if l is r:
                 return True
@@ -353,6 +444,20 @@ class Evaluator:
         return tuple(out)
 
     def iterate(self, v, node):
+        if hasattr(v, "symiter"):
+            return v.symiter(self)
+        if isinstance(v, GenResult):
+            return list(v.items)
+        if isinstance(v, SymRange):
+            # one abstract iteration with a fresh variable lo <= r < hi (the body must not carry state between
+            # iterations; the callers of this feature check what they need from the recorded fact)
+            r = self.fresh("r")
+            self.facts.append((r, v.lo, v.hi, "range"))
+            return [Poly.atom(r)]
+        if isinstance(v, SymList):
+            k = self.fresh("k")
+            self.facts.append((k, v.lo, v.hi, v.name))
+            return [Poly.atom(f"{v.name}[{k}]")]
         if isinstance(v, (tuple, list, range)):
             return list(v)
         if isinstance(v, (set, frozenset)):
@@ -369,7 +474,11 @@ class Evaluator:
             k = self.ev(target.slice, env)
             if not isinstance(d, (dict, list)):
                 raise Uninterpretable(f"item assignment on {ast.unparse(target.value)}")
-            d[k] = value
+            if isinstance(d, dict):
+                ek = self.dict_find(d, k)
+                d[k if ek is _MISSING else ek] = value
+            else:
+                d[k] = value
         elif isinstance(target, ast.Attribute):
             o = self.ev(target.value, env)
             if not isinstance(o, Obj):
@@ -420,9 +529,17 @@ class Evaluator:
             if name in self.globals and callable(self.globals[name]):
                 return self.globals[name](*args, **kwargs)
             if name == "range":
+                if any(isinstance(a, Poly) for a in args) and len(args) in (1, 2):
+                    return SymRange(0, args[0]) if len(args) == 1 else SymRange(args[0], args[1])
                 return tuple(range(*args))
             if name == "len":
+                if isinstance(args[0], SymList):
+                    return args[0].length()
+                if isinstance(args[0], GenResult):
+                    return len(args[0].items)
                 return len(args[0])
+            if name in ("list", "tuple") and args and isinstance(args[0], SymList):
+                return args[0]
             if name == "zip":
                 if kwargs.get("strict") and len({len(a) for a in args}) > 1:
                     raise Raised("ValueError")
@@ -458,7 +575,18 @@ class Evaluator:
             if name == "reversed":
                 return tuple(reversed(args[0]))
             if name == "sorted":
-                return tuple(sorted(args[0]))
+                items = list(self.iterate(args[0], e))
+                if any(isinstance(x, Poly) for x in items):
+                    out = []
+                    for x in items:  # insertion sort; every comparison of symbolic items forks
+                        pos = len(out)
+                        for j, y in enumerate(out):
+                            if self.poly_compare(ast.Lt(), Poly.of(x), Poly.of(y)):
+                                pos = j
+                                break
+                        out.insert(pos, x)
+                    return out
+                return sorted(items)
             if name == "str":
                 return str(args[0])
             if name == "float":
@@ -498,9 +626,14 @@ class Evaluator:
             if m == "items":
                 return tuple(d.items())
             if m == "get":
-                return d.get(args[0], args[1] if len(args) > 1 else None)
+                ek = self.dict_find(d, args[0])
+                return d[ek] if ek is not _MISSING else (args[1] if len(args) > 1 else None)
             if m == "setdefault":
-                return d.setdefault(args[0], args[1] if len(args) > 1 else None)
+                ek = self.dict_find(d, args[0])
+                if ek is not _MISSING:
+                    return d[ek]
+                d[args[0]] = args[1] if len(args) > 1 else None
+                return d[args[0]]
             if m == "pop":
                 return d.pop(*args)
             if m == "update":
@@ -542,6 +675,9 @@ class Evaluator:
             raise Uninterpretable("object.__setattr__ on a non-object")
         if isinstance(f, tuple) and f[0] == "listappend":
             f[1].append(args[0])
+            return None
+        if isinstance(f, tuple) and f[0] == "listextend":
+            f[1].extend(self.iterate(args[0], e))
             return None
         if isinstance(f, tuple) and f[0] == "builtin" and f[1] == "Tensor.from_lol":
             return make_tensor("scalar", (), ())
@@ -594,11 +730,14 @@ class Evaluator:
             env[node.args.kwarg.arg] = dict(kwargs)
         else:
             env.update(kwargs)
+        is_gen = any(isinstance(x, (ast.Yield, ast.YieldFrom)) for x in _own_nodes(node))
+        if is_gen:
+            env["__yields__"] = []
         try:
             self.block(node.body, env)
         except Returned as r:
-            return r.value
-        return None
+            return GenResult(env["__yields__"]) if is_gen else r.value
+        return GenResult(env["__yields__"]) if is_gen else None
 
     # ---- statements ------------------------------------------------------------------------------
     def block(self, stmts, env):
@@ -680,6 +819,47 @@ class Evaluator:
                     self.block(s.orelse, env)
             else:
                 raise Uninterpretable(f"statement {type(s).__name__}")
+
+
+def _own_nodes(fnode):
+    out = []
+
+    def rec(n):
+        for ch in ast.iter_child_nodes(n):
+            if isinstance(ch, (ast.FunctionDef, ast.AsyncFunctionDef, ast.Lambda)):
+                continue
+            out.append(ch)
+            rec(ch)
+
+    rec(fnode)
+    return out
+
+
+def explore_ev(func_node, args, kwargs=None, globals_=None, limit=512):
+    """Like explore, but yields (assumptions, outcome, evaluator) so that recorded facts are available."""
+    work = [{}]
+    n = 0
+    while work:
+        assume = work.pop()
+        n += 1
+        if n > limit:
+            yield assume, ("uninterpretable", "too many paths"), None
+            return
+        ev = Evaluator(func_node, assume, globals_)
+        try:
+            v = ev.run_function(func_node, list(args), dict(kwargs or {}), {})
+            yield assume, ("return", v), ev
+        except Raised as r:
+            yield assume, ("raise", r.exc), ev
+        except Fork as f:
+            for val in (True, False):
+                a = dict(assume)
+                a[f.key] = val
+                work.append(a)
+        except Uninterpretable as u_:
+            yield assume, ("uninterpretable", str(u_)), ev
+        except RecursionError:
+            yield assume, ("uninterpretable", "recursion"), ev
 
 
 def explore(func_node, args, kwargs=None, globals_=None):
